@@ -253,6 +253,33 @@ func childStress(args []string) {
 		cls[i] = &sclient{idx: i + 1, r: w.cl[i], rng: rand.New(rand.NewSource(cfg.Seed*131 + int64(i))), byKind: map[string]int{}}
 		cls[i].cur.Store("")
 	}
+	if len(cls) >= 2 {
+		// opening: a fresh message is appended to A and copied to B; then two sessions fetch the structure of the
+		// original and of the copy for the first time, at the same time (whatever the backend derives from a message
+		// and shares between a message and its copies is first touched here, by two connections at once)
+		a, b := cls[0], cls[1]
+		one := func(c *sclient, line string) {
+			tag := nextTag()
+			if c.r.Send(tag+" "+line+"\r\n") == nil {
+				untilTagged(c.r, tag)
+			}
+		}
+		c0 := a.r.Timeout
+		a.r.Timeout, b.r.Timeout = 10*time.Second, 10*time.Second
+		one(a, appendCmd("A"))
+		one(a, "SELECT A")
+		a.sel = "A"
+		one(a, "COPY * B")
+		one(b, "SELECT B")
+		b.sel = "B"
+		var tw sync.WaitGroup
+		for _, c := range []*sclient{a, b} {
+			tw.Add(1)
+			go func(c *sclient) { defer tw.Done(); one(c, "FETCH * (ENVELOPE BODYSTRUCTURE)") }(c)
+		}
+		tw.Wait()
+		a.r.Timeout, b.r.Timeout = c0, c0
+	}
 	t0 := time.Now()
 	for _, c := range cls {
 		wg.Add(1)
